@@ -1,6 +1,7 @@
 import SwcVerif.Gen.AlgoLmGeo
 import SwcVerif.Model.LmGeo
 import SwcVerif.Refine.LMeasure
+import SwcVerif.Refine.NodeBranch
 /-! Refinement for C10 (T21 `lmgeo`): the definitions GENERATED from the geometric L-Measure functions of `swcgeom/analysis/lmeasure.py`
 (`Gen/AlgoLmGeo.lean`) compute the quantities of `Model/LmGeo.lean`, over ANY numeric type `K` and ANY `norm`, on every well-formed tree object
 (ids = positions, `C07.WF pids`, geometry columns as long as `pids`), at every node in the domain of the function; outside the domain (root,
@@ -355,5 +356,64 @@ theorem taper2_refines (F : Py.Fld K) {n : Nat} {rs : List K} (hr : rs.length = 
       idx_col rs ja (by omega), idx_col rs jb (by omega), taper2, diameter, Int.toNat_natCast]
     cases h : Py.fdiv ((Py.Fld.ofInt 2 : K) * rs.getD ja default - (Py.Fld.ofInt 2 : K) * rs.getD jb default)
       ((Py.Fld.ofInt 2 : K) * rs.getD ja default) <;> simp [h, Py.finish]
+
+/-! ## `_bif_vector_remote`, `bif_ampl_remote` -/
+
+/-- the last node of the branch `Tree.Node.branch` returns for node `c` (model `nodeBranch`): it exists and is a node of the tree -/
+theorem branch_last {pids : List Int} (hw : C07.WF pids) (c : Int) (h0 : 0 ≤ c) (hc : c < pids.length) (Fu : Nat) (hF : pids.length + 1 ≤ Fu) :
+    ∃ l : Nat, (RefineNodeBranch.nodeBranch pids Fu c).getLast? = some (l : Int) ∧ l < pids.length := by
+  obtain ⟨up, down, e, h1, _, _⟩ := RefineNodeBranch.nodeBranch_shape hw c h0 hc Fu hF
+  have hne : RefineNodeBranch.nodeBranch pids Fu c ≠ [] := by
+    rw [e]; cases up with
+    | nil => simp at h1
+    | cons u t => simp
+  have hl := List.getLast?_eq_some_getLast hne
+  have hm : (RefineNodeBranch.nodeBranch pids Fu c).getLast hne ∈ RefineNodeBranch.nodeBranch pids Fu c := List.getLast_mem hne
+  have hv : 0 ≤ (RefineNodeBranch.nodeBranch pids Fu c).getLast hne ∧ (RefineNodeBranch.nodeBranch pids Fu c).getLast hne < pids.length := by
+    simp only [RefineNodeBranch.nodeBranch, List.mem_append, List.mem_reverse] at hm
+    rcases hm with hm | hm
+    · exact RefineNodeBranch.upC_valid hw Fu c h0 hc _ hm
+    · exact RefineNodeBranch.downC_valid hw Fu c h0 _ hm
+  refine ⟨((RefineNodeBranch.nodeBranch pids Fu c).getLast hne).toNat, ?_, by omega⟩
+  rw [hl]; congr 1; omega
+
+/-- **`LMeasure._bif_vector_remote` as translated**: at a node `v` with exactly two children `a`, `b` of a well-formed tree the vectors are
+(point of the LAST node of the branch through `a` − point of `v`, the same for `b`), the branch being what `Tree.Node.branch` returns
+(`nodeBranch`: from the child down through only-children to the next furcation or tip), for every fuel `≥ n + 1` -/
+theorem bifVectorRemote_refines {xs ys zs : List K} (pids : List Int) (hw : C07.WF pids) (hc : Cols pids.length xs ys zs) (k : Nat)
+    (hk : k < pids.length) (a b : Int) (hkids : kids pids (k : Int) = [a, b]) (Fu : Nat) (hF : pids.length + 1 ≤ Fu) :
+    ∃ la lb : Nat, (RefineNodeBranch.nodeBranch pids Fu a).getLast? = some (la : Int) ∧ (RefineNodeBranch.nodeBranch pids Fu b).getLast? = some (lb : Int) ∧
+      lm_bif_vector_remote Fu (Sub.rangeI pids.length) pids xs ys zs (k : Int) =
+        some (vsub (pos xs ys zs (la : Int)) (pos xs ys zs (k : Int)), vsub (pos xs ys zs (lb : Int)) (pos xs ys zs (k : Int))) := by
+  obtain ⟨ja, rfl, hja⟩ := kids_valid pids (k : Int) a (by rw [hkids]; simp)
+  obtain ⟨jb, rfl, hjb⟩ := kids_valid pids (k : Int) b (by rw [hkids]; simp)
+  obtain ⟨la, hla, hlav⟩ := branch_last hw (ja : Int) (by omega) (by omega) Fu hF
+  obtain ⟨lb, hlb, hlbv⟩ := branch_last hw (jb : Int) (by omega) (by omega) Fu hF
+  refine ⟨la, lb, hla, hlb, ?_⟩
+  simp only [lm_bif_vector_remote, lm_bif_vector_remote.body, Py.seq, Py.bind, RefineLm.node_children_eq pids k hk, hkids, dec_len_pair, if_true,
+    eq_self_iff_true, idx_pair0, idx_pair1, RefineNodeBranch.nodeBranch_refines hw (ja : Int) (by omega) (by omega) Fu hF,
+    RefineNodeBranch.nodeBranch_refines hw (jb : Int) (by omega) (by omega) Fu hF, idx_last, hla, hlb,
+    node_xyz_eq hc k hk, node_xyz_eq hc la hlav, node_xyz_eq hc lb hlbv, subArr_pos, Py.finish]
+  simp
+
+/-- **`LMeasure.bif_ampl_remote` as translated** = `degrees (angle …)` of exactly these two vectors -/
+theorem bifAmplRemote_refines (angle : List K → List K → Option K) (degrees : K → K) {xs ys zs : List K} (pids : List Int) (hw : C07.WF pids)
+    (hc : Cols pids.length xs ys zs) (k : Nat) (hk : k < pids.length) (a b : Int) (hkids : kids pids (k : Int) = [a, b]) (Fu : Nat)
+    (hF : pids.length + 1 ≤ Fu) :
+    ∃ la lb : Nat, (RefineNodeBranch.nodeBranch pids Fu a).getLast? = some (la : Int) ∧ (RefineNodeBranch.nodeBranch pids Fu b).getLast? = some (lb : Int) ∧
+      lm_bif_ampl_remote angle degrees Fu (Sub.rangeI pids.length) pids xs ys zs (k : Int) =
+        (angle (vsub (pos xs ys zs (la : Int)) (pos xs ys zs (k : Int))) (vsub (pos xs ys zs (lb : Int)) (pos xs ys zs (k : Int)))).map degrees := by
+  obtain ⟨la, lb, hla, hlb, e⟩ := bifVectorRemote_refines pids hw hc k hk a b hkids Fu hF
+  refine ⟨la, lb, hla, hlb, ?_⟩
+  simp only [lm_bif_ampl_remote, lm_bif_ampl_remote.body, Py.seq, Py.bind, e]
+  cases h : angle (vsub (pos xs ys zs (la : Int)) (pos xs ys zs (k : Int))) (vsub (pos xs ys zs (lb : Int)) (pos xs ys zs (k : Int))) <;>
+    simp [h, Py.finish]
+
+/-- not a bifurcation: the `assert` fails -/
+theorem bifVectorRemote_not_bif {xs ys zs : List K} (pids : List Int) (k : Nat) (hk : k < pids.length)
+    (hkids : (kids pids (k : Int)).length ≠ 2) (Fu : Nat) :
+    lm_bif_vector_remote Fu (Sub.rangeI pids.length) pids xs ys zs (k : Int) = none := by
+  have : ¬ (((kids pids (k : Int)).length : Int) = 2) := by omega
+  simp [lm_bif_vector_remote, lm_bif_vector_remote.body, Py.seq, Py.bind, RefineLm.node_children_eq pids k hk, Py.len, this, Py.finish]
 
 end RefineLmGeo
